@@ -137,7 +137,7 @@ template<class G>
 void c04_rminus(vf::Tape & t, vf::Ctx & ctx)
 {
   using S       = Spec<G>;
-  const auto e  = gen_tangent<G>(t, ctx, orc::GenOpts{10.0, static_cast<double>(orc::PI_L - 1e-3L)});
+  const auto e  = gen_tangent<G>(t, ctx, orc::GenOpts{1e3, static_cast<double>(orc::PI_L - 1e-3L)});
   const VecL eL = vecL(e);
   if (ctx.want_desc) ctx.desc << type_name<G>() << " e=" << show(e);
   ctx.set_nontrivial(!S::Commutative && S::rot_norm(eL) > 0);
